@@ -108,6 +108,10 @@ def run(M, rec, tier, seed, k, n):
         rec.count("random_histories")
         if r == 1:
             rec.sample({"history": [s[2] for s in seq], "reads": "random subsets"})
+    if k == 0:
+        from vf import workloads as W
+
+        W.repo_tests(rec, [PROP])
 
 
 def finish(M, rec, write=True):
